@@ -144,8 +144,11 @@ def gen_plan(rng, prop, run_index):
     for _ in range(T):
         kind = wchoice(rng, [("call", 78), ("construct", 10), ("observe", 12)])
         if kind == "call":
-            ops.append({"op": "call", "party": rng.randrange(n_parties), "tag": tag, "rs": rng.getrandbits(48),
-                        "kw": rng.random() < 0.3})
+            op = {"op": "call", "party": rng.randrange(n_parties), "tag": tag, "rs": rng.getrandbits(48),
+                  "kw": rng.random() < 0.3}
+            if rng.random() < 0.3:
+                op["shape"] = rng.choice(["extra_first", "extra_last", "no_output"])
+            ops.append(op)
             tag += 1
         elif kind == "construct":
             ops.append({"op": "construct", "what": rng.choice(["validate", "pfi", "sage", "batch"])})
@@ -272,6 +275,18 @@ def run_metric_plan(plan):
             if op["op"] == "call":
                 pk, obj = parties[op["party"] % len(parties)]
                 y, pred = gen_pair(info, H(seed, "pair", op["tag"]))
+                shape = op.get("shape")
+                if not info["dict_input"] and pk == "wrapper" and shape:
+                    # "single-value metrics receive the 'output' entry of the prediction dict": other entries, in any
+                    # position, must be ignored, and a dict without 'output' counts as 0
+                    other = gen_pair(info, H(seed, "aux", op["tag"]))[1]["output"]
+                    if shape == "extra_first":
+                        pred = {"aux": other, "output": pred["output"]}
+                    elif shape == "extra_last":
+                        pred = {"output": pred["output"], 1: other}
+                    elif shape == "no_output" and info["family"] == "reg":
+                        pred = {"aux": other}
+                    probe("prediction_shape_" + shape)
                 if pk == "wrapper":
                     pred_before = copy.deepcopy(pred)
                     got = obj(y_true=y, y_prediction=pred) if op.get("kw") else obj(y, pred)
